@@ -116,7 +116,7 @@ func (g *pgen) id(prefix string) string {
 	return fmt.Sprintf("%s%d", prefix, g.nid)
 }
 func (g *pgen) class(c string) { g.cls[c] = true }
-func (g *pgen) reach() bool   { return g.inFunc == 0 }
+func (g *pgen) reach() bool    { return g.inFunc == 0 }
 func (g *pgen) exclude(sig string) {
 	g.excluded[sig]++
 }
@@ -853,7 +853,7 @@ func (g *pgen) stmt(d int) string {
 		case 0:
 			hdr = fmt.Sprintf("%s = %d, 1, -1", ci, n)
 		case 1:
-			hdr = fmt.Sprintf("%s = 0, %d, %s", ci, n, pickStr(g, "for-step", []string{"2", "0.5", "0", "-1", "1e-1"}))
+			hdr = fmt.Sprintf("%s = 0, %d, %s", ci, n, pickStr(g, "for-step", []string{"2", "0.5", "3", "-1", "1e-1"}))
 		case 2:
 			hdr = fmt.Sprintf("%s = 1, #%s", ci, g.tblLeaf())
 		case 3:
